@@ -556,8 +556,55 @@ func c13Payloads() []cletter {
 	return out
 }
 
+// c13BinaryCut: the client completes the copy (CopyDone) although its binary stream stops in the middle of the
+// header, a field count, a field length or a value: a failed COPY — exactly one ErrorResponse and one
+// ReadyForQuery, and the session goes on (the next COPY starts normally).
+func c13BinaryCut(emit explore.Emit) {
+	s := c14Stream{Table: []string{"int4", "text"}, Rows: 2, Nulls: make([]bool, 4), Trailer: true}
+	stream, rowEnds, _ := s.encode()
+	boundary := map[int]bool{}
+	for _, e := range rowEnds {
+		boundary[e] = true
+	}
+	for cut := 1; cut < len(stream); cut++ {
+		if boundary[cut] {
+			continue // a stream that stops between two rows is a complete (trailer-less) stream
+		}
+		cut := cut
+		for _, split := range []bool{false, true} {
+			split := split
+			emit(explore.Case{Family: "binary-reader", Size: 4,
+				Desc: func() any {
+					return map[string]any{"binary_stream": s.String(), "client_stops_after_bytes": cut, "of": len(stream), "then": "CopyDone", "two_copydata_messages": split}
+				},
+				Run: func() explore.Result {
+					var res explore.Result
+					res.Outcome = "aborted-by-client"
+					res.Key = fmt.Sprint("binary-cut", cut, split)
+					chunks := [][]byte{stream[:cut]}
+					if split && cut > 1 {
+						chunks = [][]byte{stream[:cut/2], stream[cut/2 : cut]}
+					}
+					o, eng := c14ServeWith(s.Table, chunks, pgproto.CopyDone(), 0)
+					if eng != "" {
+						res.Engine = eng
+						return res
+					}
+					res.Trans = []string{"binary/copying|CopyDone inside a row|done"}
+					if !strings.HasPrefix(o.final, "error") && !strings.HasPrefix(o.final, "reader") {
+						res.Fail("handler-observations", fmt.Sprintf("binary stream stops after %d of %d bytes, then CopyDone: the row reader ended with %q (rows %v)", cut, len(stream), o.final, o.rows))
+					} else if o.reply != "EZ" {
+						res.Fail("copy-reply", fmt.Sprintf("binary stream stops after %d of %d bytes, then CopyDone: the failed COPY was answered %q (expected exactly one ErrorResponse and one ReadyForQuery, and a following COPY to start normally)", cut, len(stream), o.reply))
+					}
+					return res
+				}})
+		}
+	}
+}
+
 func c13Enumerate(tier string, emit explore.Emit) {
 	c13Binary(emit)
+	c13BinaryCut(emit)
 	payloads := c13Payloads()
 	for _, mode := range []string{"simple", "extended"} {
 		for _, shape := range []struct {
